@@ -1,6 +1,7 @@
 import Lean.Data.Json
 import GqlgenVerif.Model.Coerce
 import GqlgenVerif.Model.CoerceSpec
+import GqlgenVerif.Model.CoerceBind
 /-! Line-protocol driver for C02 (input coercion).
 
     schema <json>   the probe's input schema (universal.C02Schema) + "scalars" (GraphQL scalar ↦ binding) + "cfg"
@@ -73,6 +74,7 @@ structure St where
   schema : Schema := { types := [] }
   cfg : Cfg := {}
   resolvers : List (String × List ArgDef) := []   -- "Obj.field" ↦ argument definitions
+  methods : List (String × (List String × Bool)) := []   -- "Obj.field" bound to a model method ↦ (parameter names, variadic)
   deriving Inhabited
 
 def loadSchema (j : Json) : St :=
@@ -87,7 +89,11 @@ def loadSchema (j : Json) : St :=
   { schema := { types := types },
     cfg := { omittable := boolD cj "omittable" false, retPtr := boolD cj "retPtr" false,
              argDirNull := boolD cj "argDirNull" false, sfap := boolD cj "sfap" true, osep := boolD cj "osep" false },
-    resolvers := (arr j "fields").map fun f => (str f "obj" ++ "." ++ str f "name", (arr f "args").map argDef) }
+    resolvers := (arr j "fields").map fun f => (str f "obj" ++ "." ++ str f "name", (arr f "args").map argDef),
+    methods := (arr j "fields").filterMap fun f =>
+      if str f "bound" = "method" then
+        some (str f "obj" ++ "." ++ str f "name", ((arr f "params").filterMap fun x => x.getStr?.toOption, boolD f "variadic" false))
+      else none }
 
 def shapesLine (st : St) : String :=
   let args := st.resolvers.flatMap fun (k, defs) =>
@@ -114,15 +120,16 @@ def outcomeStr (o : Outcome) : String :=
   | .gatePanic w => "gate\tpanic\t" ++ w
   | .ran steps => "ran\t" ++ "\t".intercalate (steps.map fun (p, s) => stepStr p s)
 
-def parseCase (st : St) (j : Json) : List VarDef × List (String × Raw) × List FieldUse :=
+def parseCase (st : St) (j : Json) : List VarDef × List (String × Raw) × List FieldUseB :=
   let vars := (arr j "vars").map fun v =>
     ({ name := str v "name", ty := match obj? v "type" with | some t => ty t | none => .named "?" false,
        dflt := (obj? v "default").map lit } : VarDef)
   let values := (arr j "values").map fun kv => (str kv "n", match obj? kv "v" with | some v => raw v | none => Raw.nil)
   let fields := (arr j "fields").map fun f =>
-    ({ path := (str f "path").splitOn "/",
-       defs := (lookup st.resolvers (str f "obj" ++ "." ++ str f "field")).getD [],
-       given := (arr f "args").map fun kv => (str kv "n", match obj? kv "v" with | some v => lit v | none => Lit.null) } : FieldUse)
+    ({ use := { path := (str f "path").splitOn "/",
+                defs := (lookup st.resolvers (str f "obj" ++ "." ++ str f "field")).getD [],
+                given := (arr f "args").map fun kv => (str kv "n", match obj? kv "v" with | some v => lit v | none => Lit.null) },
+       bind := lookup st.methods (str f "obj" ++ "." ++ str f "field") } : FieldUseB)
   (vars, values, fields)
 
 def devs (s : String) : Spec.Devs :=
@@ -146,11 +153,16 @@ def step (st : St) (line : String) : St × String :=
     (match Json.parse rest with
      | .ok j =>
        let (vars, values, fields) := parseCase st j
-       let o := runOp st.schema st.cfg vars values fields
+       let o := runOpB st.schema st.cfg vars values fields
        -- directive invocations (argument / input-field directives), when the operation is executed
        let dirs : List String :=
          match o, varValues st.schema vars values with
-         | .ran _, .ok cv => fields.flatMap fun fu => fieldDirs st.schema st.cfg cv fu.defs fu.given fu.path
+         | .ran _, .ok cv => fields.flatMap fun fu =>
+             -- a method-bound field: only the arguments the method has a parameter for are unmarshalled
+             let defs := match fu.bind with
+               | some (ps, v) => (bindArgs fu.use.defs ps v).getD []
+               | none => fu.use.defs
+             fieldDirs st.schema st.cfg cv defs fu.use.given fu.use.path
          | _, _ => []
        (st, outcomeStr o ++ "\tdirs\x1f" ++ "\x1f".intercalate dirs)
      | .error e => (st, "bad-json " ++ e))
@@ -161,7 +173,7 @@ def step (st : St) (line : String) : St × String :=
        (match Json.parse (" ".intercalate r) with
         | .ok j =>
           let (vars, values, fields) := parseCase st j
-          (st, Spec.outcomeStr (Spec.runOp (devs d) st.schema st.cfg vars values fields))
+          (st, Spec.outcomeStr (Spec.runOpB (devs d) st.schema st.cfg vars values fields))
         | .error e => (st, "bad-json " ++ e))
      | _ => (st, "bad-op"))
   | "scalar" =>
